@@ -5,7 +5,83 @@ package fmtsort
 // Contracts for the deductive checks in /verif (comment-only; see /verif/DESIGN.md).
 
 /*@
--- fmtsort is a verbatim copy of the standard library's internal/fmtsort; its result shape is assumed.
+-- fmtsort is a copy of the standard library's internal/fmtsort. That sort.Stable orders the pairs by Less and
+-- keeps them pairs is assumed (Sort below); what is PROVED here is the part of the ordering that this package
+-- implements itself: compare() answers "equal" only for two keys that are the same value. Two entries of one map
+-- never have the same key, so no two of them compare equal, the order that Less defines on them is strict, and
+-- the sequence in which a map is printed does not depend on the order in which the runtime hands out its
+-- entries (the exception, as in fmt: keys that contain a NaN).
+
+assume pure func (v reflect.Value) Int() int64
+assume pure func (v reflect.Value) Uint() uint64
+assume pure func (v reflect.Value) Float() float64
+assume pure func (v reflect.Value) Complex() complex128
+assume pure func (v reflect.Value) Bool() bool
+assume pure func (v reflect.Value) Pointer() uintptr
+assume pure func (v reflect.Value) NumField() int
+assume pure func (v reflect.Value) Field(i int) reflect.Value
+
+-- keq(a, b): a and b, two values of one type that can be a map key, are the same value under Go's == (specification
+-- function). The clauses below are the definition of == in the language specification ("Comparison operators"),
+-- read through reflection, and are taken as axioms; only the direction "parts equal, so values equal" is needed.
+assume pure func keq(a reflect.Value, b reflect.Value) (r bool)
+  ensures 2 <= a.Kind() && a.Kind() <= 6 && a.Int() == b.Int() ==> r
+  ensures 7 <= a.Kind() && a.Kind() <= 12 && a.Uint() == b.Uint() ==> r
+  ensures a.Kind() == 24 && a.String() == b.String() ==> r
+  ensures (a.Kind() == 13 || a.Kind() == 14) && feq(a.Float(), b.Float()) ==> r
+  ensures (a.Kind() == 15 || a.Kind() == 16) && feq(real(a.Complex()), real(b.Complex())) && feq(imag(a.Complex()), imag(b.Complex())) ==> r
+  ensures a.Kind() == 1 && a.Bool() == b.Bool() ==> r
+  ensures (a.Kind() == 22 || a.Kind() == 26 || a.Kind() == 18) && a.Pointer() == b.Pointer() ==> r
+  ensures a.Kind() == 18 && a.IsNil() && b.IsNil() ==> r
+  ensures a.Kind() == 25 && (forall j :: 0 <= j && j < a.NumField() ==> keq(a.Field(j), b.Field(j))) ==> r
+  ensures a.Kind() == 17 && (forall j :: 0 <= j && j < a.Len() ==> keq(a.Index(j), b.Index(j))) ==> r
+  ensures a.Kind() == 20 && a.IsNil() && b.IsNil() ==> r
+  -- two interface values that hold something: the same dynamic type (the reflect.Value of a reflect.Type is the
+  -- pointer to the runtime's one descriptor of that type) and equal contents
+  ensures a.Kind() == 20 && !a.IsNil() && !b.IsNil() && keq(reflect.ValueOf(a.Elem().Type()), reflect.ValueOf(b.Elem().Type())) && keq(a.Elem(), b.Elem()) ==> r
+
+-- the reflect.Value of a reflect.Type is a pointer (to the runtime's descriptor of the type), and two of them
+-- point to the same descriptor only for the same type
+
+func isNaN(a float64) (r bool)
+  modifies nothing
+  ensures r <==> !feq(a, a)
+
+func floatCompare(a, b float64) (r int)
+  modifies nothing
+  ensures r == -1 || r == 0 || r == 1
+  ensures [C05,C06,C12] r == 0 ==> feq(a, b)
+
+func nilCompare(aVal, bVal reflect.Value) (c int, ok bool)
+  modifies nothing
+  ensures c == -1 || c == 0 || c == 1
+  -- unsettled only if neither is nil: the caller then looks inside both
+  ensures [C11] !ok ==> !aVal.IsNil() && !bVal.IsNil()
+  ensures [C05,C06,C12] ok && c == 0 ==> aVal.IsNil() && bVal.IsNil()
+
+func compare(aVal, bVal reflect.Value) (res int)
+  modifies nothing
+  may-panic
+  -- values of one type have one kind, and arrays of one type one length (reflect)
+  assume aVal.Type() == bVal.Type() ==> aVal.Kind() == bVal.Kind() && (aVal.Kind() == 17 ==> aVal.Len() == bVal.Len())
+  -- what an interface holds is looked at only after both were seen to hold something
+  assert [C11] !aVal.IsNil() && !bVal.IsNil() before "c := compare(reflect.ValueOf(aVal.Elem().Type()), reflect.ValueOf(bVal.Elem().Type()))"
+  loop 1 invariant 0 <= i && (forall j :: 0 <= j && j < i ==> keq(aVal.Field(j), bVal.Field(j)))
+  loop 2 invariant 0 <= i && (forall j :: 0 <= j && j < i ==> keq(aVal.Index(j), bVal.Index(j)))
+  ensures res == -1 || res == 0 || res == 1
+  ensures [C05,C06,C12] res == 0 ==> keq(aVal, bVal)
+
+func (o *SortedMap) Less(i, j int) (r bool)
+  requires 0 <= i && i < len(o.Key) && 0 <= j && j < len(o.Key)
+  modifies nothing
+  may-panic
+
+func (o *SortedMap) Len() (n int)
+  modifies nothing
+  ensures n == len(o.Key)
+
+-- that sort.Stable orders the pairs by Less, keeps them pairs, and that the result holds every entry of the map
+-- once, is assumed (the body appends to slices of reflect.Value, which the engine does not model)
 assume func Sort(mapValue reflect.Value) (r *SortedMap)
   modifies alloc, memU
   ensures r != nil && len(r.Key) == len(r.Value)
